@@ -349,6 +349,57 @@ def replay_kv_script(ctx, payload, features=None):
     return not ok
 
 
+def run_crash(ctx, runs, steps, profile="crash", tag="crash", extra=None):
+    """Random histories on a recording backend; every crash image of every point of the
+    operation stream is reopened with the real code; TLC judges the probes (Kv!CrashAtomic)"""
+    trace = os.path.join(ctx.work, f"{tag}.ndjson")
+    scripts = os.path.join(ctx.work, f"{tag}-scripts.ndjson")
+    cmd = [bin_path("crash"), "--seed", str(ctx.seed), "--runs", str(runs), "--steps", str(steps), "--tier", ctx.tier,
+           "--profile", profile, "--out", trace, "--scripts-out", scripts]
+    if extra:
+        cmd += extra
+    p = sh(cmd, timeout=7200)
+    stats = json.loads(p.stdout.strip().splitlines()[-1])
+    log(f"crash {tag}: {stats['images']} images (+{stats['second_level_images']} during recovery) at {stats['crash_points']} crash points, "
+        f"{stats['distinct_probes']} distinct outcomes, {p.wall:.1f}s")
+    ok, info = tlc_trace(ctx, "KvTrace", trace)
+    ctx.cov["evaluations"] += stats["images"] + stats["second_level_images"]
+    ctx.cov["distinct_nontrivial"] += stats["distinct_probes"]
+    ctx.notes[tag] = {k: stats[k] for k in ("runs", "events", "crash_points", "images", "second_level_images", "distinct_probes", "probes_inside_commit")}
+    ctx.add_samples(stats["samples"][:2])
+    if ok:
+        ctx.cov["traces_validated_against_impl"] += stats["runs"]
+        return stats
+    rec = info["record"]
+    if rec.get("e") != "probe":
+        raise kv_violation(ctx, trace, info)
+    script = None
+    for l in open(scripts):
+        j = json.loads(l)
+        if j["run"] == rec["run"]:
+            script = j
+    obs = rec.get("obs", {})
+    shown = obs.get("error") or "contents that are no commit point between the last durable and the last requested commit"
+    if "integ" in rec and rec.get("integ") != {"ok": True}:
+        shown += f"; check_integrity() after recovery = {rec.get('integ')}"
+    what = (f"crash at backend operation {rec['at']} (run {rec['run']}, case {json.dumps(rec['case'])}, depth {rec['depth']}): "
+            f"reopening shows {shown}")
+    sig = "crash:" + hashlib.sha256(json.dumps([script["cfg"], script["steps"], rec["at"], rec["case"], rec.get("inner")], sort_keys=True).encode()).hexdigest()[:16]
+    payload = {"property": ctx.prop, "kind": "crash-case", "cfg": script["cfg"], "steps": script["steps"], "at": rec["at"], "case": rec["case"],
+               "depth": rec["depth"], "inner": rec.get("inner"), "what": what, "signature": sig, "profile": profile}
+    path = save_replay(ctx.prop, payload)
+    raise Violation(ctx.prop, path, what, sig)
+
+
+def replay_crash_case(ctx, replay_path):
+    trace = os.path.join(ctx.work, "replay-crash.ndjson")
+    sh([bin_path("crash"), "--replay", replay_path, "--out", trace], timeout=1200)
+    ok, info = tlc_trace(ctx, "KvTrace", trace)
+    if not ok:
+        log("replay still rejected:", json.dumps(info["record"])[:400])
+    return not ok
+
+
 def gen_tour(ctx, module, cfg, out_name, workers=4, timeout=900):
     """Have TLC print every transition of a tour model"""
     out_path = os.path.join(ctx.work, out_name)
@@ -446,7 +497,29 @@ def check_C17(ctx):
                      "non-trivial = catalog operation events")
 
 
+def check_C01(ctx):
+    build()
+    runs, steps = tiered(ctx, (12, 150), (120, 300))
+    st = run_crash(ctx, runs, steps)
+    if st["probes_inside_commit"] < 10:
+        raise ToolError("vacuity: hardly any crash probe fell inside a commit")
+    ctx.assumptions += ["storage model of docs/design.md: fsync makes earlier writes durable, single-byte atomicity, powersafe overwrite; "
+                        "XXH3-128 treated as collision free",
+                        "unsynced writes: all subsets when at most 7 (quick) / 10 (thorough) are pending, otherwise none/all/each single/"
+                        "in-order prefixes/random subsets; tears at byte prefixes (1, half, len-1, header field boundaries) and random "
+                        "512-byte sector subsets"]
+    return dict(level="fault_enumeration", exhaustive=False,
+                rule="random histories (1PC/2PC/quick-repair x Durability::None/Immediate, savepoints, compaction, reopen, catalog changes; "
+                     "page sizes 512-4096, cache 0/8 pages/1 MiB, one big region or 64 KiB regions) on a recording backend; at EVERY point of "
+                     "the backend operation stream the crash images per the storage model are built, opened with the real code (sampled ones "
+                     "crashed again during recovery), and the observation is placed in the API trace where the crash happened; TLC accepts "
+                     "the trace iff every observation equals one commit point in [last durable, last requested] (Kv!CrashAtomic) and the "
+                     "recovered database passes check_integrity() with unchanged contents. distinct_nontrivial = distinct (API event, "
+                     "outcome) pairs judged by TLC; evaluations = crash images opened.")
+
+
 PROPS = {
+    "C01": check_C01,
     "C04": check_C04,
     "C09": check_C09,
     "C17": check_C17,
@@ -480,7 +553,10 @@ def main(argv):
         if replay:
             build()
             payload = json.load(open(replay))
-            still = replay_kv_script(ctx, payload)
+            if payload.get("kind") == "crash-case":
+                still = replay_crash_case(ctx, replay)
+            else:
+                still = replay_kv_script(ctx, payload)
             if still:
                 print(f"VIOLATION property={prop} replay={replay}")
                 return 1
